@@ -30,6 +30,16 @@ CHECKS["C03"] = ("exploration",
     "Model family x GEMINI x solver x batch size x {plain, must-link/cannot-link decorated} x datasets are fitted for real; the wrapped BaseOptimizer.update_params sees, at EVERY step of EVERY epoch, the live weights and the direction handed over, which must equal the negative gradient of GEMINI(batch predictions) minus the documented penalty, block by block (reference: real GEMINI gradient chained with two-step central differences of the model's own forward pass, analytic penalty, C14 reference constraint term).",
     "GEMINI gradient exactness is delegated to C02; tiny models; parameters on a ReLU kink are skipped and counted.",
     "5/C03")
+CHECKS["C10"] = ("model_checking",
+    "stateless exploration of environment answers (all n! answers of RandomState.permutation, deviation-bounded) on real fits/paths with a batch/optimiser monitor",
+    "The only nondeterminism of batching (RandomState.permutation) is owned by the harness: every batched model x n<=7 x every batch size 1..n+2/None x affinity {none, computed, user-supplied with unique entries} x {plain, decorated} is fitted for real with default answers (bound 0), with EVERY permutation as the first epoch's answer for n<=4(5) (bound 1) and every pair of answers for two epochs for n<=3 (bound 2); on every epoch the yielded batches must partition the data, respect batch_size, carry exactly A[idx][:,idx], match the decoration's recorded indices, and the optimiser must be stepped max_iter*ceil(n/bs) times; path() validation sweeps must visit consecutive diagonal blocks.",
+    "Every explored trace is an execution of the implementation (no separate model); rows are identified by value (distinct rows).",
+    "5/C10")
+CHECKS["C14"] = ("model_checking",
+    "exhaustive enumeration of all must-link/cannot-link pair sets over 4 indices vs union-find; stateless exploration of all first-epoch permutations on decorated fits vs reference constraint term",
+    "Validation: all 2^6 x 2^6 (must-link, cannot-link) pair sets over three index sets (contiguous, non-contiguous, unordered), two container types, mixed orientations, self pairs and malformed inputs, against a union-find oracle. Training: decorated models x factors x batch sizes x ALL 120 first-epoch permutation answers; in every batch of every epoch the gradient entering back-propagation must equal the real GEMINI gradient plus +-factor*(p_i-p_j) on exactly the rows that hold the constrained samples.",
+    "4 indices per index set; n=5 for training; ambiguous inputs (3-column arrays, float indices) excluded.",
+    "5/C14")
 NOT_APPLICABLE = {}
 
 def main():
